@@ -267,6 +267,13 @@ pub fn cmd_e1(args: &Args) -> i32 {
         .set("concurrent_op_pairs", J::u(concurrent_ops))
         .set("variant_kinds", J::Obj(variant_kinds.into_iter().map(|(k, v)| (k, J::u(v))).collect()))
         .set("wall_s", J::Num(wall))
+        .set(
+            "seconds_in",
+            J::obj()
+                .set("sequential_references", J::Num(T_REF.load(std::sync::atomic::Ordering::Relaxed) as f64 / 1e6))
+                .set("pristine_process_references", J::Num(T_PRISTINE.load(std::sync::atomic::Ordering::Relaxed) as f64 / 1e6))
+                .set("simulated_histories", J::Num(T_SIM.load(std::sync::atomic::Ordering::Relaxed) as f64 / 1e6)),
+        )
         .set("stats", stats_json(&total))
         .set("distinct_interleavings", J::u(hashes.len() as u64))
         .set("distinct_split_shapes", J::u(shapes.len() as u64))
